@@ -206,6 +206,10 @@ def run_check(prop: str, run_rules, *, tier='quick', replay=None, thorough_extra
                 msg = f'{m.rel}: `{helper}` is not a function of the confirmed tree; its call at L{line} of `{caller}` is read in place (extracted helper)'
                 ck.notes.append(msg)
                 print(f'  note: {msg}')
+            if getattr(m, 'temps_inlined', 0):
+                msg = f'{m.rel}: {m.temps_inlined} single-use temporar(ies) that the confirmed tree does not have are read in place'
+                ck.notes.append(msg)
+                print(f'  note: {msg}')
             if getattr(m, 'unaliased', 0):
                 msg = f'{m.rel}: {m.unaliased} local alias(es) of attributes of self that the confirmed tree does not have are read as the attributes'
                 ck.notes.append(msg)
